@@ -152,9 +152,16 @@ class Prog:
         return True
 
     def plt(self, kind="KNone"):
-        if self.exc:
-            return False
         s, r = self.call_slot(), self.ra()
+        if self.exc:
+            # library call from a landing pad (fix a731947): drops the frames unwound so far like a traced entry
+            if self.extra != 0 or kind not in ("KNone", "KFlush") or not all(x <= s for x in self.stale):
+                return False
+            self.emit("Plt", self.rng.choice(KIND_IDX[kind]), s, r, 0)
+            self.push(s, r, [True])
+            self.exc, self.extra, self.stale = False, 1, []
+            self.tags.add("plt-entry-in-exception")
+            return True
         self.emit("Plt", self.rng.choice(KIND_IDX[kind]), s, r, 0)
         self.push(s, r, [True])
         if kind == "KFlush":
@@ -277,8 +284,7 @@ class Prog:
                         self.ucall()
                         self.ret()
                         self.tags.add("untraced-call-in-cleanup")
-                    elif not self.exc:
-                        self.plt()
+                    elif self.plt():
                         self.ret()
                         self.tags.add("plt-call-in-cleanup")
                 # _Unwind_Resume is called at a slot at or above every dropped frame's slot (compiled code: the
@@ -793,6 +799,24 @@ __attribute__((noinline)) void mid(int x)
 int main() { try { mid(1); } catch (int e) { sink += 10 * e; } printf("%d\n", sink); return 0; }
 """
 
+E2E_WITNESS_PAD_LIBCALL = r"""
+#include <stdio.h>
+int exception = 1;
+struct A { A() { if (exception) throw 42; } };
+void f() { static A a; puts("f: after static init (no exception)"); }       /* pad calls __cxa_guard_abort@plt */
+int main() { try { f(); puts("main: f returned normally"); } catch (int d) { printf("main: caught %d\n", d); } return 0; }
+"""
+
+E2E_WITNESS_PAD_LIBCALL_DEPTH = r"""
+#include <cstdio>
+volatile int sink;
+struct G { int v; G() : v(1) {} ~G() { puts("dtor"); } };          /* inlined at -O2: the pad calls puts@plt */
+__attribute__((noinline)) void t3(int x) { sink += 1; if (x) throw 7; sink += 2; }
+__attribute__((noinline)) void t2(int x) { G g; sink += 3; t3(x); sink += 4; }
+__attribute__((noinline)) void t1(int x) { try { t2(x); } catch (int e) { sink += e; } }
+int main() { t1(1); printf("%d\n", sink); return 0; }
+"""
+
 E2E_WITNESS_PTHREAD_EXIT_C = r"""
 #include <stdio.h>
 #include <pthread.h>
@@ -983,7 +1007,7 @@ def run_e2e(ctx, objdir):
     from concurrent.futures import ThreadPoolExecutor
     rng = ctx.rng
     cases = []
-    for i in range(ctx.n(24, 260)):
+    for i in range(ctx.n(24, 600)):
         lang = "c" if i % 5 < 3 else "c++"
         g = E2EGen(rng, lang)
         src = g.source()
@@ -1007,6 +1031,11 @@ def run_e2e(ctx, objdir):
         {"name": "w_pexit_cpp", "src": E2E_WITNESS_PTHREAD_EXIT_CPP, "lang": "c++", "flags": ["-pg", "-O0"], "key": "pthread-exit-destructors",
          "what": "pthread_exit in a traced C++ thread: the forced unwind stops at the hijacked return address of pthread_exit, "
                  "destructors of the live frames do not run (the program computes a different result)"},
+        {"name": "w_padcall", "src": E2E_WITNESS_PAD_LIBCALL, "lang": "c++", "flags": ["-pg", "-O0"], "key": "landing-pad-libcall-swallows-exception",
+         "what": "a library function called from a landing pad (__cxa_guard_abort after a throwing static initialiser) was pushed on top "
+                 "of the stale entry of the unwound constructor; the unwinder then continued after the throwing call: exception swallowed"},
+        {"name": "w_paddepth", "src": E2E_WITNESS_PAD_LIBCALL_DEPTH, "lang": "c++", "flags": ["-pg", "-O2"], "key": "landing-pad-libcall-depth",
+         "what": "a library function called by an inlined destructor in a cleanup pad was shown as a child of the function just unwound"},
         {"name": "w_maxstack", "src": E2E_WITNESS_MAX_STACK, "lang": "c", "flags": ["-pg", "-O0"], "key": "setjmp-beyond-rstack-max",
          "record_opts": ["--max-stack=2000"],
          "what": "setjmp with more than MCOUNT_RSTACK_MAX (1024) shadow-stack entries under --max-stack=2000: the snapshot array "
@@ -1046,6 +1075,13 @@ def run_e2e(ctx, objdir):
     wprobs = {}
     for w in witnesses:
         probs, stream = judge_e2e(wres[w["name"]])
+        if w["name"] == "w_paddepth" and not probs:
+            # main(0) t1(1) t2(2): puts() is called from t2's cleanup pad, true depth 3, after t3 was closed
+            for ents in wres[w["name"]].get("replay", {}).values():
+                names = [n for n, d in ents]
+                ds = [d for n, d in ents if n == "puts"]
+                if ds and ds != [3]:
+                    probs.append(("depth", "puts() called from t2's cleanup pad is shown at depth %s, true depth 3" % ds))
         if w["name"] == "w_fentry" and not probs:
             # main(0) t1(1) t2(2): the destructor of t2's guard runs in t2's cleanup pad, true depth 3
             for ents in wres[w["name"]].get("replay", {}).values():
@@ -1120,14 +1156,14 @@ def has_nonlocal(ops):
 def run_inproc(ctx, objdir):
     h = Harness(ctx, objdir)
     progs = [({"corpus"}, c) for c in CORPUS + [WITNESS_RESUME_ALIAS]]
-    for i in range(ctx.n(150, 2500)):
+    for i in range(ctx.n(150, 6000)):
         tags = set()
         realistic = ctx.rng.random() < 0.6
         tags.add("slots:call-site" if realistic else "slots:free")
         ops = Prog(ctx.rng, tags, realistic).run(ctx.rng.choice([15, 30, 50, 70]))
         progs.append((tags, ops))
     frees = [MIXED_CHAIN, WITNESS_FENTRY]
-    for i in range(ctx.n(200, 3000)):
+    for i in range(ctx.n(200, 5000)):
         frees.append(gen_free(ctx.rng, ctx.rng.choice([8, 20, 40])))
     flags, results = h.run_many([ops for _, ops in progs] + frees)
     legal = [(ops, res) for (_, ops), res in zip(progs, results)]
